@@ -203,14 +203,21 @@ pub fn check_topk(spec: &TopkSpec, result: &[(u32, f32)]) -> Result<(), String> 
             worst_tol = o.tol;
         }
     }
-    // order: monotone in the reported distance
+    // order: monotone in the reported distance; an undefined (NaN) distance is "unknown", i.e. never
+    // nearer than a defined one: such results come last (arroy's total order on scores)
     let reps: Vec<f32> = result.iter().map(|r| r.1).collect();
-    if reps.iter().all(|r| !r.is_nan()) {
-        for w in reps.windows(2) {
-            let bad = if spec.metric == Metric::DotProduct { w[0] < w[1] } else { w[0] > w[1] };
-            if bad {
-                return Err(format!("results not ordered nearest first: {:e} before {:e}", w[0], w[1]));
-            }
+    let first_nan = reps.iter().position(|r| r.is_nan()).unwrap_or(reps.len());
+    if let Some(k) = reps[first_nan..].iter().position(|r| !r.is_nan()) {
+        return Err(format!(
+            "results not ordered nearest first: an undefined (NaN) distance at rank {first_nan} is ranked before the defined distance {:e} at rank {}",
+            reps[first_nan + k],
+            first_nan + k
+        ));
+    }
+    for w in reps[..first_nan].windows(2) {
+        let bad = if spec.metric == Metric::DotProduct { w[0] < w[1] } else { w[0] > w[1] };
+        if bad {
+            return Err(format!("results not ordered nearest first: {:e} before {:e}", w[0], w[1]));
         }
     }
     // exactness: nothing left out is closer than the worst returned
